@@ -6,6 +6,8 @@ import (
 	"errors"
 	"fmt"
 	"go/format"
+	"go/parser"
+	"go/token"
 	"io"
 	"os"
 	"path/filepath"
@@ -293,6 +295,13 @@ func check(c Case) error {
 				}
 			}
 		}
+		if entry == "File.Render" && okErr == nil && !noFormatFile(c.File) {
+			// success of a formatted render means the formatter accepted a complete Go file: what reached the
+			// writer (and what Save would put on disk) parses as one
+			if _, perr := parser.ParseFile(token.NewFileSet(), "", okw.buf.Bytes(), parser.PackageClauseOnly); perr != nil {
+				return fmt.Errorf("File.Render reported success but the bytes it wrote are not a Go file (%v):\n%s", perr, okw.buf.Bytes())
+			}
+		}
 		if entry == "File.Render" && okErr == nil && !bytes.Equal(okw.buf.Bytes(), refBuf.Bytes()) {
 			return fmt.Errorf("File.Render wrote %q into the instrumented writer, %q into a bytes.Buffer", okw.buf.Bytes(), refBuf.Bytes())
 		}
@@ -556,6 +565,15 @@ func swapCase(b []byte) []byte {
 	return out
 }
 
+func noFormatFile(f *recipe.File) bool {
+	for _, op := range f.Ops {
+		if op.Op == "NoFormat" {
+			return true
+		}
+	}
+	return false
+}
+
 func firstLine(err error) string {
 	if err == nil {
 		return "<nil>"
@@ -596,6 +614,10 @@ func TestC10(t *testing.T) {
 		if rapid.IntRange(0, 2).Draw(rt, "noformat") == 0 {
 			f.Ops = append(f.Ops, recipe.FileOp{Op: "NoFormat"})
 			r.Class("noformat_file")
+		}
+		if rapid.IntRange(0, 2).Draw(rt, "trailer") == 0 {
+			// generated files often end with a comment block
+			f.Body = append(f.Body, recipe.S().C("Comment", "end of file\n(generated)"))
 		}
 		c := Case{File: f}
 		note(c)
